@@ -51,8 +51,6 @@ func (w *world) intentOf(r *request) intent {
 // nitem is one update of a notification: a leaf (with an optional value override) or a JSON document.
 type nitem struct {
 	op
-	val *model.Val
-	ll  []model.Val
 }
 
 type notif struct {
@@ -427,7 +425,7 @@ func TestC23(t *testing.T) {
 				if !ok {
 					edit, target = edDrop, pick(rt, dropC, "drop")
 				} else {
-					over[target] = nitem{val: nv, ll: nl}
+					over[target] = nitem{op: op{val: nv, ll: nl}}
 				}
 			case edAdd:
 				target = pick(rt, addC, "add")
@@ -636,7 +634,7 @@ func TestC23(t *testing.T) {
 		need("op:update-leaf", 0.3)
 		need("op:update-json-entry", 0.1)
 		need("notif:json-document", 0.1)
-		need("notif:prefix", 0.15)
+		need("notif:prefix", 0.08)
 		need("val:leaf-list", 0.15)
 		need("val:enum", 0.15)
 		need("val:identityref", 0.10)
